@@ -343,6 +343,14 @@ func (run *PropRun) report(w *World, t0 time.Time) int {
 		"methods are verified for non-nil receivers",
 		"memory safety of well-typed Go: slices, strings and pointers read from memory (also pointers held in interface values, at dynamic dispatch) refer to whole allocated objects; memory of different Go types does not alias",
 		"inside contract expressions (which never write) a string/[]byte conversion shares the bytes of its source instead of copying them")
+	for _, r := range run.Roots {
+		if !strings.Contains(r, ".") && (strings.HasPrefix(r, "rt") || strings.HasPrefix(r, "dec")) {
+			trusted = append(trusted,
+				"ghost harnesses (rt*, dec* in /repo/spec_verif.go): the harness builds the decoder's input and receiver the way ReadRemaining does (first byte copied into a zero packet, body behind the remaining-length field, remaining length 0 not decoded); this mirror is reviewed, not verified against ReadRemaining",
+				"while a harness is the root, the first evaluation of each loop header is peeled (a loop left at once leaves the state unchanged; the arbitrary-iteration state then stands for loops entered at least once) and assumed bounded quantifiers are also instantiated at the indices 0..3")
+			break
+		}
+	}
 	for _, k := range sortedKeys(run.Trusted) {
 		if d, ok := externDoc[k]; ok {
 			trusted = append(trusted, "trusted model: "+d)
